@@ -91,6 +91,13 @@ def _check_dists(ctx, t, group, kind, outcome, mech, case):
     tr = t.get_trace()
     dt, df = tr.true_distances.get(0), tr.false_distances.get(0)
     prob = None
+    if dt is None and df is None and kind in ("IN", "NOT_IN") and "right" in case and (
+        V.vclass(case["right"]) in ("oneshot", "generator") if case["right"] in V.BY_NAME else False
+    ):
+        # the statement constrains *recorded* evaluations; membership in a one-shot iterator is deliberately
+        # not evaluated by the tracer (it would consume the iterator)
+        ctx.cls("not-recorded:iterator-operand")
+        return True
     if dt is None or df is None:
         prob = "not-recorded"
     elif dt != dt or df != df:
